@@ -105,15 +105,19 @@ class DifferentialOperator(LinearOperator):
 
             elif isinstance(expr, Expr):
                 x = Symbol(cls.coordinate, real=True)
-                if cls.logical:
-                    M = expr.atoms(Mapping)
-                    if len(M)>0:
-                        M = list(M)[0]
-                        expr_primes = [diff(expr, M[i]) for i in range(M.pdim)]
-                        Jj = Jacobian(M)[:,cls.grad_index]
-                        expr_prime = sum([ei*Jji for ei,Jji in zip(expr_primes, Jj)])
-                        return expr_prime + diff(expr, x)
-                return diff(expr, x)
+                expr_prime = diff(expr, x)
+                # chain rule through the components of every mapping in expr;
+                # the derivative of a component is the entry of the Jacobian
+                # for a logical operator and stays unevaluated (as in the
+                # branch above) for a physical one
+                for M in expr.atoms(Mapping):
+                    if cls.logical:
+                        dM = list(Jacobian(M)[:,cls.grad_index])
+                    else:
+                        dM = [cls(M[i], evaluate=False) for i in range(M.pdim)]
+                    expr_primes = [diff(expr, M[i]) for i in range(M.pdim)]
+                    expr_prime += sum([ei*dMi for ei,dMi in zip(expr_primes, dM)])
+                return expr_prime
 
 
         if isinstance(expr, Add):
